@@ -89,7 +89,8 @@ Proof.
   intros lens p order out lb b x y Hnb Hlb H Hb Hx Hy.
   unfold loader_batches in H. destruct (loader_init lens p) as [[[i2b b2s]|]|e] eqn:Hinit; try discriminate.
   - destruct (loader_init_bucketed _ _ _ _ Hinit) as [_ Hpar].
-    destruct (bucket_params_ok _ _ _ _ _ _ Hpar) as (lb' & Hlb' & -> & _).
+    destruct (bucket_params_ok _ _ _ _ _ _ Hpar) as [(-> & _ & _)|(lb' & Hlb' & -> & _)].
+    { rewrite length_bounds_empty in Hlb. discriminate. }
     assert (lb' = lb) by congruence. subst lb'.
     destruct (bucket_iter _ _ _ _) as [o|] eqn:E; [|discriminate]. inversion H; subst.
     destruct (bucket_iter_spec _ _ _ _ _ E) as (Hsb & _).
@@ -110,52 +111,32 @@ Proof.
   - inversion H; subst. f_equal. symmetry. apply batch_sampler_len_eq. lia.
 Qed.
 
-(* no RuntimeError: once the constructor succeeded every epoch yields batches *)
-Theorem loader_total : forall lens p order t, 1 <= p_bs p -> 1 <= p_nb p ->
-  (forall i, In i order -> i < length lens) -> loader_init lens p = Ok t ->
+(* the constructor never raises ... *)
+Theorem loader_init_total : forall lens p, 1 <= p_nb p -> exists t, loader_init lens p = Ok t.
+Proof.
+  intros lens p Hnb. unfold loader_init. destruct (Nat.ltb 1 (p_nb p)); [|eexists; reflexivity].
+  destruct (bucket_params_total lens (p_nb p) (p_bs p) (p_dyn p) Hnb) as (t & ->). eexists; reflexivity.
+Qed.
+
+(* ... and every epoch yields batches (no RuntimeError): for every data set - empty ones and
+   zero-length utterances included -, every bucket count, batch size, sizing flag, drop_last *)
+Theorem loader_total : forall lens p order, 1 <= p_bs p -> 1 <= p_nb p ->
+  (forall i, In i order -> i < length lens) ->
   exists out, loader_batches lens p order = Ok out.
 Proof.
-  intros lens p order t Hbs Hnb Hord Hinit. unfold loader_batches. rewrite Hinit.
+  intros lens p order Hbs Hnb Hord. unfold loader_batches.
+  destruct (loader_init_total lens p Hnb) as (t & Hinit). rewrite Hinit.
   destruct t as [[i2b b2s]|]; [|eexists; reflexivity].
   destruct (loader_init_bucketed _ _ _ _ Hinit) as [_ Hpar].
-  destruct (bucket_params_ok _ _ _ _ _ _ Hpar) as (lb & Hlb & Hi2b & _).
-  destruct (length_bounds_ok _ _ _ Hlb) as (_ & _ & Hne & _ & _ & Hmax & _).
   destruct (bucket_iter_some (tbl i2b) (tbl b2s) (p_drop p) order) as (out & Hout).
-  - intros i Hi. subst i2b. rewrite tbl_map_class.
+  - intros i Hi. specialize (Hord i Hi).
+    destruct (bucket_params_ok _ _ _ _ _ _ Hpar) as [(-> & _ & _)|(lb & Hlb & Hi2b & _)]; [cbn in Hord; lia|].
+    destruct (length_bounds_ok _ _ _ Hlb) as (_ & _ & Hne & _ & _ & Hmax & _).
+    subst i2b. rewrite tbl_map_class.
     assert (Hj : class_of lb (nth i lens 0) < length lb).
-    { apply class_of_lt_length; [|exact Hne]. apply Hmax. apply nth_In. now apply Hord. }
+    { apply class_of_lt_length; [|exact Hne]. apply Hmax. now apply nth_In. }
     destruct (bucket_sizes _ _ _ _ _ _ lb _ Hpar Hlb Hj) as (_ & Hge & _). lia.
   - rewrite Hout. eexists; reflexivity.
-Qed.
-
-(* the constructor raises exactly in the two F8 situations *)
-Theorem loader_init_errors : forall lens p e, 1 <= p_nb p ->
-  (loader_init lens p = Err e <->
-   1 < p_nb p /\
-   ((e = IndexError /\ lens = []) \/
-    (e = ZeroDivisionError /\ p_dyn p = true /\ exists lb, length_bounds lens (p_nb p) = Ok lb /\ In 0 lb))).
-Proof.
-  intros lens p e Hnb. unfold loader_init.
-  destruct (Nat.ltb 1 (p_nb p)) eqn:E.
-  - apply Nat.ltb_lt in E. rewrite <- (bucket_params_errors lens (p_nb p) (p_bs p) (p_dyn p) e Hnb).
-    destruct (bucket_params _ _ _ _) as [x|e']; split.
-    + discriminate.
-    + intros [_ H]. discriminate.
-    + intros H. inversion H. split; [exact E|reflexivity].
-    + intros [_ H]. inversion H. reflexivity.
-  - apply Nat.ltb_ge in E. split; [discriminate|]. intros [H _]. lia.
-Qed.
-
-(* when all utterances are non-empty (or sizes are fixed) a non-empty data set never raises *)
-Theorem loader_init_ok : forall lens p, 1 <= p_nb p -> lens <> [] ->
-  (p_dyn p = false \/ Forall (fun l => 0 < l) lens) -> exists t, loader_init lens p = Ok t.
-Proof.
-  intros lens p Hnb Hne Hz. destruct (loader_init lens p) as [t|e] eqn:E; [eexists; reflexivity|].
-  exfalso. apply (loader_init_errors lens p e Hnb) in E.
-  destruct E as [_ [[_ Hl]|(_ & Hd & lb & Hlb & H0)]]; [contradiction|].
-  destruct Hz as [Hz|Hz]; [congruence|].
-  destruct (length_bounds_ok _ _ _ Hlb) as (_ & _ & _ & _ & Hin & _).
-  rewrite Forall_forall in Hz. specialize (Hz 0 (Hin 0 H0)). lia.
 Qed.
 
 (* "deliver identical batches for identical (seed, epoch)": the batches of an epoch are a function
